@@ -292,6 +292,56 @@ func subStackScenarioX(depth int, c int, fixed []string) *explore.Scenario {
 	}}
 }
 
+// Close while a Subscribe call is still inside the inner subscriber (a transport that is still connecting and gives up
+// when it is closed): like the undecorated subscriber, the stack passes the Close on - once - and both calls return.
+func pendingSubscribeScenario() *explore.Scenario {
+	return &explore.Scenario{Name: "subscriber-stack/close-during-pending-subscribe", C: 0, Body: func() {
+		inner := hx.NewScriptSub("inner", nil)
+		inner.BlockSubscribe = true
+		reg := prometheus.NewRegistry()
+		mb := metrics.NewPrometheusMetricsBuilder(reg, "ns", "sub")
+		var sub message.Subscriber = inner
+		k := 1 + vs.Choose(2, 0, "stack depth")
+		stack := ""
+		for i := 0; i < k; i++ {
+			var err error
+			if vs.Choose(2, 0, "layer") == 0 {
+				stack = "transform>" + stack
+				sub, err = message.MessageTransformSubscriberDecorator(func(m *message.Message) {})(sub)
+			} else {
+				stack = "metrics>" + stack
+				sub, err = mb.DecorateSubscriber(sub)
+			}
+			if err != nil {
+				vs.Fail("setup", "%v", err)
+				return
+			}
+		}
+		subscribeReturned := false
+		var subErr error
+		go func() {
+			_, subErr = sub.Subscribe(context.Background(), "t")
+			subscribeReturned = true
+		}()
+		vs.Quiesce() // the Subscribe call is inside the inner subscriber now
+		if inner.SubscribeCalls != 1 || subscribeReturned {
+			vs.Fail("setup", "stack %sinner: the pending Subscribe is not where it should be (inner calls %d, returned %v)", stack, inner.SubscribeCalls, subscribeReturned)
+			return
+		}
+		if err := sub.Close(); err != nil { // hang = Close never returns
+			vs.Fail("close-passes-through", "stack %sinner: Close: %v", stack, err)
+		}
+		vs.Quiesce()
+		if inner.CloseCalls != 1 {
+			vs.Fail("close-passes-through", "stack %sinner: inner Close called %d times", stack, inner.CloseCalls)
+		}
+		if !subscribeReturned || subErr == nil {
+			vs.Fail("transparent", "stack %sinner: the pending Subscribe returned=%v err=%v after Close", stack, subscribeReturned, subErr)
+		}
+		vs.Note("stack %sinner ok", stack)
+	}}
+}
+
 // ---- (2b) the same message object travels through both metrics decorators ----------------------------------------
 //
 // A consumer republishes the very message it received (a pass-through handler does), or hands a message it just
@@ -599,6 +649,7 @@ func init() {
 		return subStackScenarioX(2, 0, []string{"metrics", "metrics"})
 	})
 	add(reg.Thorough, 20, func(t reg.Tier) *explore.Scenario { return subStackScenarioX(2, 0, []string{"transform", "metrics2"}) })
+	add(reg.Quick, 5, func(t reg.Tier) *explore.Scenario { return pendingSubscribeScenario() })
 	add(reg.Quick, 5, func(t reg.Tier) *explore.Scenario { return delayScenario() })
 	add(reg.Quick, 10, func(t reg.Tier) *explore.Scenario { return handlerMetricsScenario(-1) })
 }
